@@ -1873,6 +1873,13 @@ func (app *App) repairSlaveNode(node *mysql.Node, clusterState map[string]*nodes
 		if err != nil {
 			app.logger.Error().Err(err).Msg("repair")
 		}
+		// mark it before it is re-pointed: afterwards the host does not look like a master any more,
+		// so a marking that failed would never be repeated
+		err = app.SetRecovery(host)
+		if err != nil {
+			app.logger.Error().Err(err).Msgf("repair: error setting stale master %s for recovery", host)
+			return
+		}
 		app.logger.Info().Msgf("repair: turning stale master %s to new master %s", host, master)
 		err = app.performChangeMaster(host, master)
 		if err != nil {
